@@ -33,15 +33,6 @@ INT32_MIN, INT32_MAX, UINT32_MAX = -2 ** 31, 2 ** 31 - 1, 2 ** 32 - 1
 # when the declaration is in the class AND the real code's output is exactly what the model of
 # the defect predicts — anything else is still reported as a violation.
 PENDING_FINDINGS = [
-    {'key': 'enum-storage:negative-member-and-member-above-INT32_MAX',
-     'what': 'an enumeration with a negative member and a member above G_MAXINT (each representable in the '
-             '32-bit ValueBlob) gets storage gint32 (4 bytes); gcc gives it 8 bytes, so the enum and every '
-             'struct/union embedding it is recorded with a wrong layout '
-             '(giroffsets.c compute_enum_storage_type: the min<0 branch never looks at max > G_MAXINT)'},
-    {'key': 'field-offset>=65535:truncated-to-16-bits',
-     'what': 'a field at offset >= 65535 is stored modulo 65536 in FieldBlob.struct_offset (guint16), or reads '
-             'as the "unknown" marker when it is exactly 65535: a wrong positive offset instead of "unknown" '
-             '(girnode.c: blob->struct_offset = field->offset)'},
     {'key': 'flexible-array-member:sized-as-pointer',
      'what': 'a trailing flexible array member (GIR <array> without fixed-size/length, element c:type not a '
              'pointer — what g-ir-scanner writes for `T data[];`) is laid out as a pointer: the struct gets a '
@@ -57,7 +48,10 @@ PENDING_FINDINGS = [
              'girparser.c start_function accepts <callback> only in STATE_CLASS_FIELD / STATE_STRUCT_FIELD, so the '
              'field is left without a type; no typelib is written for the whole namespace'},
 ]
-K_ENUM, K_OFF16, K_FLEX, K_NONINTRO, K_UNIONCB = [p['key'] for p in PENDING_FINDINGS]
+K_FLEX, K_NONINTRO, K_UNIONCB = [p['key'] for p in PENDING_FINDINGS]
+# repaired in /repo (260587f field offsets that do not fit 16 bits are stored as unknown; 1fcf299 an enum with a
+# negative member and a member above G_MAXINT gets gint64): their witnesses stay in corpus/C08 as regressions and
+# are judged like everything else, with no suppression.
 
 # ---------------------------------------------------------------------------------------------
 # vocabulary: GIR basic type name -> C spelling used in the gcc translation unit.  The C side is
@@ -542,9 +536,9 @@ class Gen(object):
             self.decls.append({'d': rng.choice(['enum', 'enum', 'flags']), 'name': n,
                                'values': gen_enum_values(rng, cls), 'cls': cls})
             self.enums.append(n)
-            # as member types: mostly the in-format classes; the 33-bit and 64-bit ranges are rarer so that
+            # as member types: mostly the in-format classes; the out-of-format 64-bit ranges are rarer so that
             # most structs stay fully judged
-            self.enum_pool.extend([n] * (1 if cls in ('mixed33', 'big64', 'neg64') else 6))
+            self.enum_pool.extend([n] * (1 if cls in ('big64', 'neg64') else 6))
         self.decls.append({'d': 'callback', 'name': 'Cb'})
         self.decls.append({'d': 'alias', 'name': 'Al', 'target': rng.choice(['gint16', 'guint64', 'gdouble', 'gint'])})
         for i in range(self.n_compound):
@@ -626,7 +620,7 @@ class Gen(object):
             while el['k'] in ('cb', 'bits', 'barecb', 'nonintro', 'lenarray'):
                 el = self.leaf()
             n = rng.choice([0, 1, 2, 3, 3, 5, 7, 8, 16, 31, 100])
-            if rng.random() < self.weights.get('bigarray', 0.004):
+            if rng.random() < self.weights.get('bigarray', 0.012):
                 n = rng.choice([65535, 65536, 70000, 131072])
             t = {'k': 'array', 'n': n, 'of': el}
             if rng.random() < 0.08:
@@ -668,7 +662,7 @@ ENUM_BOUNDS = [
     [-1, 127], [-1, 128], [-1, 255], [-1, 256], [-1, 32767], [-1, 32768], [-1, 65535], [-1, 65536], [-1, INT32_MAX],
     [-128, 127], [-129, 127], [-128, 128], [-32768, 32767], [-32769, 32767], [-32768, 32768], [-40000, 1], [-40000, 40000],
     [INT32_MIN, 0], [INT32_MIN + 1, INT32_MAX - 1], [1, 2, 4, 2 ** 31], [UINT32_MAX - 1, UINT32_MAX],
-    # the known defect class (negative together with > G_MAXINT), at its own boundaries
+    # negative together with > G_MAXINT (gint64 since fix 1fcf299), at the boundaries of that class
     [-1, 2 ** 31], [-1, UINT32_MAX], [INT32_MIN, 2 ** 31], [INT32_MIN, UINT32_MAX],
     # outside the typelib format: model correspondence only
     [2 ** 32], [-2 ** 31 - 1],
@@ -993,17 +987,16 @@ class Runner(object):
             lo, hi = (-(2 ** (8 * sz - 1)), 2 ** (8 * sz - 1) - 1) if signed else (0, 2 ** (8 * (sz or 0)) - 1)
             good = sz is not None and abi is not None and sz == abi['size'] and lo <= min(vs + [0]) and max(vs + [0]) <= hi
             # signedness: the storage is unsigned iff the compiler's enum type is
-            if good and abi is not None and sz == 4:
+            if good and abi is not None and sz in (4, 8):
                 good = signed == bool(abi['signed'])
             if not good:
                 what = ('enum %s.%s values=%r: typelib storage %s (%s bytes, %s) but gcc: %s bytes, %s' % (
                     b.ns, name, d['values'], im['storage_name'], sz, 'signed' if signed else 'unsigned',
                     abi and abi['size'], 'signed' if abi and abi['signed'] else 'unsigned'))
-                if 'enum33' in fl and im['storage'] == 6 and abi and abi['size'] == 8:
-                    ctx.report_failure(K_ENUM, what, {'kind': 'decl', 'batch': dump_batch(b, [name]), 'name': name})
-                else:
-                    ctx.report_failure('enum:' + json.dumps(sorted(set(d['values']))), what,
-                                       {'kind': 'decl', 'batch': dump_batch(b, [name]), 'name': name})
+                ctx.report_failure('enum:' + json.dumps(sorted(set(d['values']))), what,
+                                   {'kind': 'decl', 'batch': dump_batch(b, [name]), 'name': name})
+            elif 'enum33' in fl:
+                self.cnt.hit('%s:enum:negative-and-above-INT32_MAX:equal-to-gcc' % label)
             return
         # ------------------------------------------------------------------ structs / unions
         self.cnt.case(['s', d['d'], d['members'], sorted(fl)], nontrivial=len(d['members']) >= 2)
@@ -1030,8 +1023,7 @@ class Runner(object):
             if want != got:
                 self.corr('%s %s: typelib %r, model %r' % (d['d'], name, got, want), b, d)
         # validation of the trusted step "Spec.cLayout = the C compiler": Spec(b) vs gcc (c)
-        plain = not (fl & {'flex', 'nonintro_value', 'nonintro_ptr', 'bits', 'barecb', 'barecb_union', 'enum33', 'enum64',
-                           'abort'})
+        plain = not (fl & {'flex', 'nonintro_value', 'nonintro_ptr', 'bits', 'barecb', 'barecb_union', 'enum64', 'abort'})
         if mod is not None and mod.get('spec') is not None and abi is not None and plain:
             sp = mod['spec']
             if (sp['size'], sp['align'], sp['offsets']) != (abi['size'], abi['align'], [o for _n, o in abi['fields']]):
@@ -1068,11 +1060,16 @@ class Runner(object):
         want = {'size': abi['size'], 'align': abi['align'], 'offsets': [o for _n, o in abi['fields'] if True]}
         abi_off = dict(abi['fields'])
         want['offsets'] = [abi_off[m['name']] for m in field_members]
+        # FieldBlob.struct_offset has 16 bits and 0xFFFF means "unknown": an offset >= 65535 cannot be stored, and
+        # the statement then asks for "unknown rather than a wrong one".  Nothing else is accepted for such a
+        # field, every offset below 65535 must be exact, and size / alignment (32 / 6 bits) must be right.
+        storable = [w if w < UNKNOWN_OFF else UNKNOWN_OFF for w in want['offsets']]
+        n_unstorable = sum(1 for w in want['offsets'] if w >= UNKNOWN_OFF)
         if d['d'] == 'object':
             got_cmp = {'offsets': got['offsets']}
-            want_cmp = {'offsets': want['offsets']}
+            want_cmp = {'offsets': storable}
         else:
-            got_cmp, want_cmp = got, want
+            got_cmp, want_cmp = got, dict(want, offsets=storable)
         unknown_kinds = fl & {'flex', 'nonintro_value', 'nonintro_ptr'}
         if got_cmp == want_cmp:
             self.cnt.hit('%s:oracle:equal-to-gcc%s' % (label, ':with-' + '+'.join(sorted(unknown_kinds)) if unknown_kinds else ''))
@@ -1083,15 +1080,17 @@ class Runner(object):
                 self.cnt.hit('judged:nest:' + '>'.join(p))
             if 'grid' in d:
                 self.grid_cells[tuple(d['grid'])] = 'equal-to-gcc'
+            if n_unstorable:
+                self.cnt.hit('%s:oracle:offset>=65535-recorded-unknown:%s' % (label, d['d']), n_unstorable)
             return
         if 'grid' in d:
             self.grid_cells[tuple(d['grid'])] = 'differs'
         if unknown_kinds and is_unknown_layout(d, got, field_members):
             self.cnt.hit('%s:oracle:recorded-unknown' % label)
             return
-        what = '%s %s.%s: typelib size=%s align=%s offsets=%r; gcc size=%s align=%s offsets=%r; members=%s' % (
+        what = '%s %s.%s: typelib size=%s align=%s offsets=%r; gcc size=%s align=%s offsets=%r%s; members=%s' % (
             d['d'], b.ns, name, got['size'], got['align'], got['offsets'], want['size'], want['align'], want['offsets'],
-            json.dumps(d['members'])[:500])
+            ' (offsets >= 65535 must read 65535 = unknown)' if n_unstorable else '', json.dumps(d['members'])[:500])
         rep = {'kind': 'decl', 'batch': dump_batch(b, [name]), 'name': name}
         explained = mod is not None and mod.get('kind') in ('struct', 'union') and \
             mod['stored']['offsets'] == got['offsets'] and (d['d'] == 'object' or (mod['stored']['size'] == got['size']
@@ -1101,19 +1100,6 @@ class Runner(object):
             key = K_FLEX
         elif explained and 'nonintro_value' in fl:
             key = K_NONINTRO
-        elif explained and 'enum33' in fl:
-            key = K_ENUM
-        else:
-            # K_OFF16: record, boxed or class (ObjectBlob stores no size/alignment, so for a class there is
-            # nothing but the offsets to compare; union members are all at 0).  Exactly: some field's TRUE
-            # offset is >= 65535, every field below 65535 is stored exactly, every field at or above it is
-            # stored modulo 2^16, and size / alignment (where stored) are right.  A wrong offset below 65535
-            # never gets this key.
-            size_align_right = d['d'] == 'object' or (got['size'] == want['size'] and got['align'] == want['align'])
-            if explained and max(want['offsets'] + [0]) >= 65535 and size_align_right \
-                    and len(got['offsets']) == len(want['offsets']) \
-                    and all(g == (w if w < 65535 else (w % 65536)) for g, w in zip(got['offsets'], want['offsets'])):
-                key = K_OFF16
         if key is not None:
             self.cnt.hit('%s:known-finding:%s:%s' % (label, key.split(':')[0], d['d']))
             if 'grid' in d:
